@@ -89,6 +89,15 @@ func (c *verifSQLControl) op(db, kind, text string) error {
 	return nil
 }
 
+func (c *verifSQLControl) notify(db, kind, text string) {
+	c.mu.Lock()
+	h := c.hooks[db]
+	c.mu.Unlock()
+	if h != nil {
+		h(verifSQLOp{DB: db, Kind: kind, Text: text})
+	}
+}
+
 type verifSQLDriver struct{ inner sqlite3.SQLiteDriver }
 
 func (d *verifSQLDriver) Open(dsn string) (driver.Conn, error) {
@@ -161,7 +170,25 @@ func (s *verifSQLStmt) Query(args []driver.Value) (driver.Rows, error) {
 		rows.Close()
 		return nil, err
 	}
-	return rows, nil
+	return &verifSQLRows{db: s.db, q: s.q, r: rows}, nil
+}
+
+// verifSQLRows adds a third interposition point: "rows-closed", after the caller has read the rows it wanted and the
+// statement has been reset (its locks released) - for a single-row read this is the moment the data is in the caller's
+// hands.  (go-sqlite3 steps the statement lazily, in Next: at "query-done" no row has been read yet.)  It is a
+// notification: not numbered, not logged, its result ignored.
+type verifSQLRows struct {
+	db, q string
+	r     driver.Rows
+	once  sync.Once
+}
+
+func (r *verifSQLRows) Columns() []string              { return r.r.Columns() }
+func (r *verifSQLRows) Next(dest []driver.Value) error { return r.r.Next(dest) }
+func (r *verifSQLRows) Close() error {
+	err := r.r.Close()
+	r.once.Do(func() { verifSQL.notify(r.db, "rows-closed", r.q) })
+	return err
 }
 
 type verifSQLTx struct {
@@ -209,7 +236,7 @@ type verifOutage struct {
 func newVerifOutage() *verifOutage { return &verifOutage{wait: make(chan struct{})} }
 
 func (g *verifOutage) Hook(op verifSQLOp) error {
-	if op.Kind == "query-done" {
+	if op.Kind == "query-done" || op.Kind == "rows-closed" {
 		return nil
 	}
 	if op.Kind == "open" {
